@@ -402,6 +402,59 @@ def odd_member_names(chk: Check, sc: Scratch) -> None:
         site.close()
 
 
+def degenerate_archives(chk: Check, sc: Scratch) -> None:
+    """The smallest archives there are: no member at all, nothing but an empty directory member, one file, one dot-file
+    -- against the directories an extractor makes of them."""
+    import io
+    import zipfile
+
+    def pack(members):
+        bio = io.BytesIO()
+        with zipfile.ZipFile(bio, "w") as z:
+            for name, data in members:
+                zi = zipfile.ZipInfo(name, (2020, 9, 13, 12, 26, 40))
+                zi.external_attr = (0o40755 << 16) if name.endswith("/") else (0o100644 << 16)
+                z.writestr(zi, data)
+        return bio.getvalue()
+
+    shapes = {"ZQXempty": [], "ZQXlonedir": [("only/", "")], "ZQXonefile": [("one.txt", "1\n")], "ZQXdotfile": [(".hidden", "h\n")],
+              "ZQXemptyfile": [("zero.txt", "")], "ZQXdeepdir": [("a/b/c/", "")]}
+    root = sc.sub("degenerate")
+    t = Tree()
+    for nm, members in shapes.items():
+        t.file(nm + ".zip", pack(members))
+        t.dir(nm)
+        for name, data in members:
+            if name.endswith("/"):
+                t.dir(nm + "/" + name.rstrip("/"))
+            else:
+                t.file(nm + "/" + name, data)
+    t.materialize(root)
+    site = driver.Site(root, handlers=driver.HANDLERS_FULL)
+    try:
+        for nm, members in shapes.items():
+            sels = [b"", b"/nothing", b"/nothing/deeper", b"/"] + [b"/" + m.rstrip("/").encode() for m, _ in members] + \
+                   [b"/" + m.rstrip("/").encode() + b"/nope" for m, _ in members]
+            for sel in sels:
+                for view in ("gopher", "gopherp$", "gopherp+", "http", "gemini", "spartan"):
+                    a_req, tls = reqs.render(view, b"/" + nm.encode() + sel)
+                    z_req, _ = reqs.render(view, b"/" + nm.encode() + b".zip" + sel)
+                    driver.clean_server_files(root)
+                    ra, rz = site.request(a_req, tls=tls), site.request(z_req, tls=tls)
+                    chk.count("degenerate_archive_pairs")
+                    sample = {"archive": nm, "members": [m for m, _ in members], "selector": sel, "view": view,
+                              "disk": ra.data[:300], "zip": rz.data[:300], "ziplog": rz.log[:3], "escaped": rz.escaped[:1]}
+                    if rz.escaped or rz.hung or [e for e in rz.exceptions() if not validate.is_io_error_name(e)]:
+                        chk.witness("C16/zip-request-crashed:%s" % (rz.exceptions() or ["?"])[0], sample)
+                        return
+                    if norm(ra.data) != norm(rz.data.replace(nm.encode() + b".zip", nm.encode())):
+                        chk.witness("C16/differs:degenerate-archive:%s:%s" % (nm, reqs.VIEWS[view][0]), sample)
+                        return
+                    chk.case(("degenerate", nm, sel, view), None)
+    finally:
+        site.close()
+
+
 def main() -> int:
     chk = Check("C16", "exploration")
     quick = chk.tier == "quick"
@@ -416,6 +469,7 @@ def main() -> int:
                 nested_cache_lookalike(chk, sc)
                 escaping_symlink(chk, sc)
                 odd_member_names(chk, sc)
+                degenerate_archives(chk, sc)
     return chk.finish(
         rule="case = (selector, protocol view): the reply for /T.zip/<sel> must equal the reply for /T/<sel> (the same "
              "tree extracted, symlink members mirrored as symlinks) after replacing the prefix and dropping "
